@@ -9,7 +9,7 @@
    plus sleep), stereotype, stage count and budget, and any list of injected messages; all
    statements hold for every script. *)
 From Coq Require Import List NArith Bool.
-From DesVerif Require Import Life.Model Life.Base Life.Step Life.Trace Life.Frame Life.Inert Life.Inv Life.Events Life.Restart.
+From DesVerif Require Import Life.Model Life.Base Life.Step Life.Trace Life.Frame Life.Inert Life.Inv Life.Events Life.Restart Life.Term.
 Import ListNotations.
 Open Scope N_scope.
 
@@ -52,13 +52,14 @@ Print Assumptions C09_reset_once_per_shutdown.
    shutdown()/shutdow_and_restart_in(d) of that event wins, d counts from the event's time),
    and None once m was (re)started.
    (a) a restart event of m only ever happens at exactly that time -- hence once per request;
-   (b) when the run completes no requested restart is left pending;
+   (b) every run completes (see C09_run_terminates) and then no requested restart is left pending:
+       every restart that was asked for is executed;
    (c) in a restart event the start-up stages run in order 0, 1, .., each once, stamped with the
        event's time: at least stage 0, and all of them unless a stage panicked. *)
 Theorem C09_restart_stages_once_at_time :
   (forall sc pre e post m, trace sc = pre ++ e :: post -> e_kind e = KLoop (EvRestart m) ->
      pending m pre = Some (e_time e)) /\
-  (forall sc m, r_ok (run_script sc) = true -> pending m (trace sc) = None) /\
+  (forall sc m, pending m (trace sc) = None) /\
   (forall sc e m, In e (trace sc) -> e_kind e = KLoop (EvRestart m) ->
      (exists n, (stage_list (c_stages (cfg sc m)) <> [] -> (0 < n)%nat) /\
         map call_key (start_calls (e_items e)) =
@@ -67,7 +68,8 @@ Theorem C09_restart_stages_once_at_time :
         map call_key (start_calls (e_items e)) =
         map (fun st => (m, st, e_time e)) (stage_list (c_stages (cfg sc m))))).
 Proof.
-  split; [exact restart_at_requested_time|split; [exact no_restart_left_pending|exact restart_runs_stages_once]].
+  split; [exact restart_at_requested_time|split; [|exact restart_runs_stages_once]].
+  intros sc m. apply no_restart_left_pending, run_terminates.
 Qed.
 Print Assumptions C09_restart_stages_once_at_time.
 
@@ -114,6 +116,13 @@ Theorem C09_delivery_independent_of_m :
   (forall sc w t ev i, ev_mod ev <> Some i -> w_mod (fst (process sc w t ev)) i = w_mod w i).
 Proof. split; [exact walk_depends_on_chain|split; [exact deliver_iff_active|exact process_oth]]. Qed.
 Print Assumptions C09_delivery_independent_of_m.
+
+(* every run ends: the fuel of the model's event loop is never exhausted (a potential made of budgets,
+   pending events, remaining task actions, pending timers and the time driver's next_wakeup drops
+   with every dispatched event) *)
+Theorem C09_run_terminates : forall sc, r_ok (run_script sc) = true.
+Proof. exact run_terminates. Qed.
+Print Assumptions C09_run_terminates.
 
 (* every loop state of the run is a generated state: the invariants above are about the worlds
    the simulation really goes through *)
